@@ -1,6 +1,6 @@
-From InfOCF Require Import Core Tol Form Model Spec Ocf Parse Lexer Exec.
+From InfOCF Require Import Core Tol Form Model Spec Ocf Parse Lexer Crev Exec.
 Require Extraction.
 Require Import ExtrOcamlBasic.
 Extraction Language OCaml.
 Set Extraction Output Directory ".".
-Extraction "model.ml" run_case run_diag run_faithful run_mcs run_cinf run_zocf frank accept marginalize conditionalize ranks2tpo tpo_back run_parse_formula run_parse_file run_parse_queries run_cond_text.
+Extraction "model.ml" run_case run_diag run_faithful run_mcs run_cinf run_zocf frank accept marginalize conditionalize ranks2tpo tpo_back run_parse_formula run_parse_file run_parse_queries run_cond_text run_crev run_crep.
